@@ -269,7 +269,7 @@ Proof. vm_compute. reflexivity. Qed.
     node lists [K] twice, which C10 proves for labels: [C10_labels_once]);
     every figure = [occ] w.r.t. [I] ([fig_occ], the NONLITERAL sum included,
     as for class runs). *)
-From Shexer Require Import Model.RunMap Proofs.RunMapProofs.
+From Shexer Require Import Model.ShexingFix Model.RunMap Proofs.RunMapProofs.
 From Shexer Require Model.Selectors.
 
 Theorem C01_map_dictionary_keys_unique : forall orc sp g I,
@@ -286,7 +286,7 @@ Theorem C01_map_run_decompose : forall fa c orc sp thr g ns shapes,
     Selectors.run orc sp g = Selectors.OOk I /\
     prof_targets orc sp = Selectors.Ok targets /\
     profile (pcfg_map c orc sp targets) I g = inl (P, C, ID) /\
-    shex fa (scfg_map c sp ns) thr P C = inl shapes.
+    shex_cur fa (scfg_map c sp ns) thr P C = inl shapes.
 Proof. exact run_shapes_map_ok_iff. Qed.
 Print Assumptions C01_map_run_decompose.
 
